@@ -12,11 +12,18 @@ package main
 //              wait reached this stage (rel = n1).  code n0 = "every other scripted controller
 //              has finished its script"; code n99 never happens (= wait for the timeout).
 //   cond     = ( stage ... )   the stages one after the other; () = immediately
-//   replayer = ( kind cap auto putscript replayscript )
+//   replayer = ( kind cap auto putscript replayscript [gc] )
+//              kind n0 = the scripted wrapper alone, n1 = FiniteReplayer(cap), n2 = ValidReplayer, n3 = ValidReplayer
+//              (TTL 1000 s) whose clock jumps +600 s right after the m-th accepted Put and +500 s right after the
+//              (m+k)-th, cap = 100 m + k; gc = n1: the application's own GC() call follows the second jump at once
+//              (made from inside Put, i.e. on Joe's goroutine: the replayer is never touched concurrently)
 //   sub      = ( topics idopt wscript selfcancel start cancelopt )  cancelopt = () never | ( cond )
 //              (( () ) = cancelled before Subscribe is called)
-//   pub      = ( start msgs )  a publisher thread;  msg = ( topics idopt pre )
-//              the token p of a message = its index in the concatenation of all threads' msgs
+//   pub      = ( start msgs )  a publisher thread;  msg = ( topics idopt pre [shape] )
+//              the token p of a message = its index in the concatenation of all threads' msgs.
+//              shape n0: the data field carries the token; n1: a message without data, event type and retry
+//              (with idopt = () it is &sse.Message{}).  A message without data is recognised by the pointer the
+//              publisher passed / the replayer's Put returned (fallback: the ID Put returned for it).
 //   shut     = ( start cancelopt )
 //
 // Nothing in a scenario is a sleep: controllers wait for observed events.  A wait also ends
@@ -67,6 +74,7 @@ type jMsgSpec struct {
 	topics []uint64
 	idopt  val.V
 	pre    jCond
+	shape  uint64
 }
 type jPubSpec struct {
 	start jCond
@@ -86,7 +94,7 @@ type jParkSpec struct {
 type jScenario struct {
 	seed, procs, policy uint64
 	parks               []*jParkSpec
-	kind, cap, auto     uint64
+	kind, cap, auto, gc uint64
 	putScript           []uint64
 	repScript           []uint64
 	subs                []jSubSpec
@@ -137,7 +145,11 @@ func (s *jScenario) enc() val.V {
 	for _, t := range s.pubs {
 		msgs := []val.V{}
 		for _, m := range t.msgs {
-			msgs = append(msgs, val.L(jNums(m.topics), jIDOpt(m.idopt), m.pre.enc()))
+			mv := []val.V{jNums(m.topics), jIDOpt(m.idopt), m.pre.enc()}
+			if m.shape != 0 {
+				mv = append(mv, val.N(m.shape))
+			}
+			msgs = append(msgs, val.List(mv))
 		}
 		pubs = append(pubs, val.L(t.start.enc(), val.List(msgs)))
 	}
@@ -145,9 +157,13 @@ func (s *jScenario) enc() val.V {
 	for _, h := range s.shuts {
 		shuts = append(shuts, val.L(h.start.enc(), jCondOpt(h.hasCancel, h.cancel)))
 	}
+	rv := []val.V{val.N(s.kind), val.N(s.cap), val.N(s.auto), jNums(s.putScript), jNums(s.repScript)}
+	if s.gc != 0 {
+		rv = append(rv, val.N(s.gc))
+	}
 	return val.L(
 		val.L(val.N(s.seed), val.N(s.procs), val.N(s.policy), val.List(parks)),
-		val.L(val.N(s.kind), val.N(s.cap), val.N(s.auto), jNums(s.putScript), jNums(s.repScript)),
+		val.List(rv),
 		val.List(subs), val.List(pubs), val.List(shuts))
 }
 
@@ -162,7 +178,7 @@ func jDecCond(v val.V) jCond {
 func jDecode(v val.V) *jScenario {
 	meta, rep := v.At(0), v.At(1)
 	s := &jScenario{seed: meta.At(0).Num(), procs: meta.At(1).Num(), policy: meta.At(2).Num(),
-		kind: rep.At(0).Num(), cap: rep.At(1).Num(), auto: rep.At(2).Num(),
+		kind: rep.At(0).Num(), cap: rep.At(1).Num(), auto: rep.At(2).Num(), gc: rep.At(5).Num(),
 		putScript: scriptOf(rep.At(3)), repScript: scriptOf(rep.At(4))}
 	for _, p := range meta.At(3).Items() {
 		s.parks = append(s.parks, &jParkSpec{point: p.At(0).Num(), id: p.At(1).Num(), nth: p.At(2).Num(),
@@ -175,7 +191,7 @@ func jDecode(v val.V) *jScenario {
 	for _, t := range v.At(3).Items() {
 		pt := jPubSpec{start: jDecCond(t.At(0))}
 		for _, m := range t.At(1).Items() {
-			pt.msgs = append(pt.msgs, jMsgSpec{topics: scriptOf(m.At(0)), idopt: m.At(1), pre: jDecCond(m.At(2))})
+			pt.msgs = append(pt.msgs, jMsgSpec{topics: scriptOf(m.At(0)), idopt: m.At(1), pre: jDecCond(m.At(2)), shape: m.At(3).Num()})
 		}
 		s.pubs = append(s.pubs, pt)
 	}
@@ -280,6 +296,8 @@ type jx struct {
 	subIdx, pubIdx, shutIdx map[any]uint64
 	tokThread               []uint64
 	tokMsg                  []*jMsgSpec
+	ptrTok                  map[*sse.Message]uint64 // messages that carry no data token: the pointers that stand for them
+	idTok                   map[string]uint64       // ... and the IDs Put returned for them
 	writers                 []*jwriter
 	parksBy                 map[uint64][]*jParkSpec
 
@@ -340,11 +358,59 @@ func (x *jx) look(m map[any]uint64, k any) uint64 {
 	return jUnknown
 }
 
-func (x *jx) tokOf(m *sse.Message) uint64 {
+// tokOfLocked identifies a message: by the token its data carries (read-only: safe from any goroutine),
+// a message without data by its pointer, else by the ID the replayer gave it.  Caller holds x.mu.
+func (x *jx) tokOfLocked(m *sse.Message) uint64 {
 	if m == nil {
 		return jNilTok
 	}
-	return msgTok(m) // the payload carries the token (read-only: safe from any goroutine)
+	if c, _ := m.VerifChunks(); len(c) > 0 {
+		return msgTok(m)
+	}
+	if p, ok := x.ptrTok[m]; ok {
+		return p
+	}
+	if m.ID.IsSet() {
+		if p, ok := x.idTok[m.ID.String()]; ok {
+			return p
+		}
+	}
+	return jUnknown
+}
+
+func (x *jx) tokOf(m *sse.Message) uint64 {
+	x.mu.Lock()
+	defer x.mu.Unlock()
+	return x.tokOfLocked(m)
+}
+
+// noteMsg records that m stands for message p (needed for messages without a data token only).
+func (x *jx) noteMsg(m *sse.Message, p uint64) {
+	if m == nil {
+		return
+	}
+	if c, _ := m.VerifChunks(); len(c) > 0 {
+		return
+	}
+	x.mu.Lock()
+	x.ptrTok[m] = p
+	if m.ID.IsSet() {
+		if _, dup := x.idTok[m.ID.String()]; !dup {
+			x.idTok[m.ID.String()] = p
+		}
+	}
+	x.mu.Unlock()
+}
+
+func jMkMsg(ms *jMsgSpec, p uint64) *sse.Message {
+	if ms.shape == 0 {
+		return mkMsg(ms.idopt, p)
+	}
+	m := &sse.Message{}
+	if ms.idopt.Present() {
+		m.ID = sse.ID(ms.idopt.At(0).Str())
+	}
+	return m
 }
 
 func jMsgID(m *sse.Message) val.V {
@@ -383,7 +449,7 @@ func (x *jx) hook(point string, a, b any) {
 		}
 	case code == 11:
 		m, _ := b.(*sse.Message)
-		id = x.tokOf(m)
+		id = x.tokOfLocked(m)
 		x.pubIdx[a] = id
 		topics, thread := val.L(), uint64(jUnknown)
 		if id < uint64(len(x.tokMsg)) {
@@ -602,10 +668,7 @@ func (w *jwriter) finish(code uint64, seq int, v uint64) error {
 }
 
 func (w *jwriter) Send(m *sse.Message) error {
-	tok := uint64(jNilTok)
-	if m != nil {
-		tok = msgTok(m)
-	}
+	tok := w.x.tokOf(m)
 	v := w.verdict()
 	seq := w.x.rec(38, w.i, val.N(tok), jMsgID(m), val.N(v))
 	return w.finish(38, seq, v)
@@ -670,12 +733,16 @@ func (r *jrep) Put(m *sse.Message, topics []string) (out *sse.Message, err error
 		out, err = r.inner.Put(m, topics)
 		if err == nil {
 			r.accepted++
+			r.x.noteMsg(out, p)
 			if m, k := int(r.x.sc.cap)/100, int(r.x.sc.cap)%100; r.x.sc.kind == 3 {
 				switch r.accepted {
 				case m:
 					r.x.clockJump.Store(600)
 				case m + k:
 					r.x.clockJump.Store(1100) // the first m accepted events are expired from now on, the next k are not
+					if vr, ok := r.inner.(*sse.ValidReplayer); ok && r.x.sc.gc != 0 {
+						vr.GC() // the application's own collection (documented use); the logical content is unchanged
+					}
 				}
 			}
 		}
@@ -711,6 +778,7 @@ func joeRunScenario(v val.V, seq uint64, shm []byte) (status uint64, events []va
 	sc := jDecode(v)
 	x := &jx{sc: sc, counts: map[[2]uint64]uint64{}, shm: shm, last: time.Now(),
 		subIdx: map[any]uint64{}, pubIdx: map[any]uint64{}, shutIdx: map[any]uint64{},
+		ptrTok: map[*sse.Message]uint64{}, idTok: map[string]uint64{},
 		parksBy: map[uint64][]*jParkSpec{}}
 	x.cond = sync.NewCond(&x.mu)
 	x.wakeFn = func() {
@@ -805,7 +873,8 @@ func joeRunScenario(v val.V, seq uint64, shm []byte) (status uint64, events []va
 				ms := &pt.msgs[k]
 				p := base + uint64(k)
 				x.waitStages(ms.pre, jHard, true)
-				m := mkMsg(ms.idopt, p)
+				m := jMkMsg(ms, p)
+				x.noteMsg(m, p)
 				x.callStart()
 				err := x.joe.Publish(m, jTopicNames(ms.topics))
 				x.rec(15, p, val.N(joeErrCode(err)))
